@@ -8,7 +8,7 @@ TRUSTED = ["CBMC 6.11 + uninterpreted functions", "abstract group model (stubs/i
 ASSUMPTIONS = ["scalar_add/sub: inputs reduced (as documented)", "scalar_random: accepted within 2 draws"]
 OUTSIDE = ["point decoding (square-root chain), ge25519_double_scalarmult_vartime (sliding windows with scalar-dependent control flow), is_on_main_subgroup / mul_l; the composition of the decided layers (field kernels [E2 limb] -> group operations == addition law [E2 ring] -> scalar-multiplication algorithms == a*P over abstract multiples [E2] + table look-ups [CBMC] + base table [exhaustive]) is on paper",
            "sc25519_reduce / mul / muladd: the value before serialisation lying in [0, 2^256) and the output being the canonical representative (< L) -- the congruence mod L, the absence of int64 overflow for all inputs and the inversion exponent ARE decided (E2 limb mode)",
-           "Elligator / Ristretto maps and the Ristretto encode/decode formulas (abstract here)", "main-subgroup test"]
+           "Elligator / Ristretto map formulas and the Ristretto encode/decode formulas (abstract here; the expand_message_xmd layer and the NU / RO data flow ARE decided)", "main-subgroup test"]
 CORE = ["crypto_core/ed25519/core_ed25519.c", "crypto_scalarmult/ed25519/ref10/scalarmult_ed25519_ref10.c", "sodium/utils.c", "crypto_verify/verify.c"]
 STUBS = ["ideal_ed25519.c", "ideal_hash.c", "rng.c", "misuse.c", "libc.c", "x86_builtins.c"]
 
@@ -37,6 +37,21 @@ def obligations(tier):
                       defs={"CACHED": cached}, unwind=40, timeout=900, mem=6, nochecks=True, family="table-lookups",
                       desc="constant-time look-up ge25519_cmov8%s == b * P selected from the table (neutral for 0, negated entry for b < 0)" % ("_cached" if cached else ""),
                       bounds="all table contents (8 entries, every limb), every digit -8..8"))
+    H2C = ["crypto_core/ed25519/core_h2c.c", "crypto_core/ed25519/core_ed25519.c", "crypto_core/ed25519/core_ristretto255.c", "sodium/utils.c", "crypto_verify/verify.c"]
+    shapes = [(2, 48, 5, 3), (1, 48, 5, 3), (2, 96, 0, 0), (1, 96, 17, 40), (2, 64, 5, 40), (1, 64, 0, 3), (1, 33, 5, 3)]
+    if tier == "thorough":
+        shapes += [(2, 48, 255, 3), (2, 48, 256, 3), (1, 48, 256, 0), (1, 96, 255, 1), (2, 130, 5, 3), (1, 65, 3, 0)]
+    for halg, hl, cl, ml in shapes:
+        obs.append(Ob("h2c-xmd-sha%d-len%d-ctx%d-m%d" % (256 if halg == 1 else 512, hl, cl, ml), "C07/h2c.c", units=H2C, stubs=STUBS,
+                      defs={"PART": 0, "HALG": halg, "HLEN": hl, "CTXLEN": cl, "MLEN": ml}, unwind=340, timeout=600, mem=6, family="hash-to-group",
+                      tier="quick" if (halg, hl, cl, ml) in shapes[:7] else "thorough",
+                      desc="core_h2c_string_to_hash == RFC 9380 expand_message_xmd over an abstract hash (DST', Z_pad, length block, counters, oversize DST)",
+                      bounds="all message bytes, concrete context string; (hash, output length, context length, message length) enumerated"))
+    for halg, cl, ml in ((2, 5, 3), (1, 0, 40)):
+        obs.append(Ob("h2c-from-string-sha%d-ctx%d-m%d" % (256 if halg == 1 else 512, cl, ml), "C07/h2c.c", units=H2C, stubs=STUBS,
+                      defs={"PART": 1, "HALG": halg, "HLEN": 96, "CTXLEN": cl, "MLEN": ml}, unwind=340, timeout=1800, mem=8, family="hash-to-group", replay="model",
+                      desc="crypto_core_ed25519_from_string (NU) / _ro (RO) and crypto_core_ristretto255_from_string(_ro) == RFC 9380 / RFC 9496 data flow over abstract maps",
+                      bounds="all message bytes, concrete context string; shapes enumerated"))
     RIS = ["crypto_core/ed25519/core_ristretto255.c", "crypto_core/ed25519/core_ed25519.c", "crypto_scalarmult/ristretto255/ref10/scalarmult_ristretto255_ref10.c",
            "sodium/utils.c", "crypto_verify/verify.c"]
     for part, nm in ((0, "validate-add-sub"), (1, "scalarmult"), (2, "from-hash-random-scalars")):
